@@ -29,15 +29,16 @@ EmitB == buf \in ExploreFrom =>
 FCalls(f) == SetToSeq({[op |-> "readnone", mode |-> "none", px |-> AllU]}
                       \cup {[op |-> "readmasked", mode |-> m, px |-> AllU] : m \in Modes}
                       \cup {[op |-> "configure", mode |-> o, px |-> AllU] : o \in LoaderConfigs}
+                      \cup {[op |-> o, mode |-> "none", px |-> AllU] : o \in SibOps}
                       \cup UNION {{[op |-> "write", mode |-> m, px |-> t] : t \in TilesOf(m)} : m \in CanHold[f]})
 EmitF == (fcall.op = "none" /\ got = NoGot) =>
     LET cs == FCalls(fmt) IN
-    PrintT(<<"F", ToJson([fmt |-> fmt, env |-> lenv, mode |-> file.mode, px |-> Code(file.px),
+    PrintT(<<"F", ToJson([fmt |-> fmt, env |-> lenv, sib |-> (sib # Absent), sibpx |-> Code(SibTile.px), mode |-> file.mode, px |-> Code(file.px),
                           edges |-> [i \in 1..Len(cs) |->
                               LET f2 == FileAfter(file, cs[i])
                                   g2 == GotAfter(file, cs[i])
                                   e2 == IF cs[i].op = "configure" THEN cs[i].mode ELSE lenv
-                              IN <<cs[i].op, cs[i].mode, Code(cs[i].px), e2, f2.mode, Code(f2.px),
+                              IN <<cs[i].op, cs[i].mode, Code(cs[i].px), e2, (SibAfter(sib, cs[i]) # Absent), f2.mode, Code(f2.px),
                                    g2.kind, g2.mode, Code(g2.px), g2.sz>>]])>>)
 
 \* per state of the two-position machine: every enabled call and the state it leads to
